@@ -1619,6 +1619,10 @@ def binop(ex, op, a, b, opa, opb, L, f):
         r = ea - eb
         ov = z3.Not(z3.BVSubNoUnderflow(ea, eb, signed)) if not signed else z3.Or(z3.Not(z3.BVSubNoOverflow(ea, eb)), z3.Not(z3.BVSubNoUnderflow(ea, eb, True)))
         return [SV(r, w, signed), SB(ov)]
+    if op == "MulWithOverflow":
+        r = ea * eb
+        ov = z3.Not(z3.BVMulNoOverflow(ea, eb, signed)) if not signed else z3.Or(z3.Not(z3.BVMulNoOverflow(ea, eb, True)), z3.Not(z3.BVMulNoUnderflow(ea, eb)))
+        return [SV(r, w, signed), SB(ov)]
     raise Unsupported("sym binop " + op)
 
 def wrap(r, w, signed):
